@@ -62,6 +62,19 @@ def check(ctx):
     #   pages:  start_page + int((len(image) - 1) / page_size) >= flash_pages      (index of the last page is beyond the flash)
     from ..symexec import subst as _subst
     tst = refusal[0].ast.test
+    # the test may be asked the other way round ("it fits" with the refusal on the false branch): read it as the refusal test
+    raises_ = [n for n in g.nodes if n.kind == 'raise']
+    t_edges = [e for e in refusal[0].succ if e.label and e.label[0] == 'cond' and e.label[2] is True]
+    f_edges = [e for e in refusal[0].succ if e.label and e.label[0] == 'cond' and e.label[2] is False]
+    # ("it fits" form: the raise sits in the else branch of the test, not in its body)
+    fits_form = any(isinstance(x, ast.Raise) for s_ in refusal[0].ast.orelse for x in ast.walk(s_)) and \
+        not any(isinstance(x, ast.Raise) for s_ in refusal[0].ast.body for x in ast.walk(s_))
+    if fits_form:
+        neg = {ast.Gt: ast.LtE, ast.GtE: ast.Lt, ast.Lt: ast.GtE, ast.LtE: ast.Gt}.get(type(tst.ops[0]))
+        if neg is not None:
+            tst = ast.copy_location(ast.Compare(left=tst.left, ops=[neg()], comparators=tst.comparators), tst)
+    if isinstance(tst.ops[0], (ast.Lt, ast.LtE)):           # a < b  =  b > a
+        tst = ast.copy_location(ast.Compare(left=tst.comparators[0], ops=[{ast.Lt: ast.Gt, ast.LtE: ast.GtE}[type(tst.ops[0])]()], comparators=[tst.left]), tst)
 
     def through(e, at=None):
         """e with helper locals (single reaching plain assignment at node `at`) replaced by their values; the loop and state variables stay"""
@@ -94,8 +107,8 @@ def check(ctx):
     okf = (opn == 'Gt' and diff == want_b) or (opn == 'GtE' and diff == want_p) or (opn == 'Gt' and diff == want_p1)
     ctx.inst('R1', f, 'size-test-form', okf, 'space test is `%s` (as difference: %s %s 0); expected len(image) > (flash_pages - start_page) * page_size or the equivalent '
              'page form start_page + last_page >= flash_pages (override-aware start page)' % (norm(tst), diff, opn))
-    te = [e for e in refusal[0].succ if e.label and e.label[0] == 'cond' and e.label[2] is True]
-    fe = [e for e in refusal[0].succ if e.label and e.label[0] == 'cond' and e.label[2] is False]
+    te = [e for e in refusal[0].succ if e.label and e.label[0] == 'cond' and e.label[2] is (not fits_form)]
+    fe = [e for e in refusal[0].succ if e.label and e.label[0] == 'cond' and e.label[2] is fits_form]
     ok = bool(te) and g.path_avoiding(refusal[0], [g.exit] + [n for n, _ in ups + wfs], avoid_edges=fe) is None
     ctx.inst('R1', f, 'too-large-raises', ok, 'an image that does not fit raises on every path, nothing is uploaded or written')
     ok = all(('e', fe[0].id) in g.dom()[('n', n.id)] for n, _ in ups + wfs) and bool(sp) and g.dominates(sp[0], refusal[0]) and all(g.path_avoiding(refusal[0], [x]) is None for x in sp)
@@ -182,7 +195,8 @@ def check(ctx):
     cvs = [x.id for x in ast.walk(thr) if isinstance(x, ast.Name)]
     ctx.need(len(cvs) == 1, 'upload_buffer: flush test is not a comparison of one counter')
     count = cvs[0]
-    ok = len(fmts) == 1 and isinstance(thr, ast.Compare) and len(thr.ops) == 1
+    cmp_ = thr.operand if isinstance(thr, ast.UnaryOp) and isinstance(thr.op, ast.Not) else thr         # `not count < k` is a comparison too
+    ok = len(fmts) == 1 and isinstance(cmp_, ast.Compare) and len(cmp_.ops) == 1
     nbytes = None
     if ok:
         # count > k  /  k < count  /  count >= k ...
